@@ -203,16 +203,29 @@ let swhid_of_file k p =
   | FDir -> Inl OEmptyContent
   | FMissing -> Inr CrFileNotFound
 
-(** val swhid_of_dir : argkind -> ptag -> (obj, crash) sum **)
+(** val swhid_of_dir : argkind -> ptag -> bool -> (obj, crash) sum **)
 
-let swhid_of_dir k t =
-  match stat k with
-  | FReg -> Inr CrNotADirectory
-  | FDir ->
-    (match t with
-     | PBytes -> Inl (if islink k then ODirAtLinkTarget else ODirAtPath)
-     | PStr -> Inr CrTypeError)
-  | _ -> Inr CrFileNotFound
+let swhid_of_dir k t excluding =
+  match t with
+  | PBytes ->
+    (match stat k with
+     | FReg -> Inr CrNotADirectory
+     | FDir ->
+       (match t with
+        | PBytes -> Inl (if islink k then ODirAtLinkTarget else ODirAtPath)
+        | PStr -> Inr CrTypeError)
+     | _ -> Inr CrFileNotFound)
+  | PStr ->
+    if excluding
+    then Inr CrTypeError
+    else (match stat k with
+          | FReg -> Inr CrNotADirectory
+          | FDir ->
+            (match t with
+             | PBytes ->
+               Inl (if islink k then ODirAtLinkTarget else ODirAtPath)
+             | PStr -> Inr CrTypeError)
+          | _ -> Inr CrFileNotFound)
 
 (** val swhid_of_git_repo : argkind -> (obj, crash) sum **)
 
@@ -393,7 +406,7 @@ let identify_object v c =
              in
              (match t with
               | TContent -> lift (swhid_of_file k p) false
-              | _ -> lift (swhid_of_dir k tag) c.excl))
+              | _ -> lift (swhid_of_dir k tag c.excl) c.excl))
    | None -> RUsage)
 
 (** val obj_eqb : obj -> obj -> bool **)
@@ -475,7 +488,7 @@ let identify_gen v c =
             then Usage
             else if rectype_rejects v c.ty
                  then Usage
-                 else (match swhid_of_dir c.arg PBytes with
+                 else (match swhid_of_dir c.arg PBytes c.excl with
                        | Inl o -> Print (o, c.excl, c.fname, true)
                        | Inr cr -> Crash cr)
        else (match identify_object v c with
